@@ -58,6 +58,40 @@ func VerifC05ExtArray() {
 	vReach("end")
 }
 
+// VerifC05ExtArrayZooms: the same claim with each element's zooms given by the case (h0..h3, v0..v3),
+// so that one list can hold zooms whose decimal texts extend one another (5 and 15): pairs that differ as
+// pairs although the concatenation of their texts coincides.
+func VerifC05ExtArrayZooms() {
+	n1, n2 := vCase("n1"), vCase("n2")
+	var l1, l2 []string
+	anyPair := false
+	var xs, ys, fs, hs, vs [4]int64
+	for i := int64(0); i < n1+n2; i++ {
+		hs[i], vs[i] = vCase(vN("h", i)), vCase(vN("v", i))
+		xs[i], ys[i], fs[i] = vNondetInt64(vN("x", i)), vNondetInt64(vN("y", i)), vNondetInt64(vN("f", i))
+		vAssume(0 <= xs[i] && xs[i] < int64(1)<<uint(hs[i]) && 0 <= ys[i] && ys[i] < int64(1)<<uint(hs[i]))
+		vAssume(-(int64(1)<<uint(vs[i])) <= fs[i] && fs[i] < int64(1)<<uint(vs[i]))
+		if i < n1 {
+			l1 = append(l1, vID5(hs[i], xs[i], ys[i], vs[i], fs[i]))
+		} else {
+			l2 = append(l2, vID5(hs[i], xs[i], ys[i], vs[i], fs[i]))
+		}
+	}
+	for i := int64(0); i < n1; i++ {
+		for j := n1; j < n1+n2; j++ {
+			if vInter1(hs[i], xs[i], hs[j], xs[j]) && vInter1(hs[i], ys[i], hs[j], ys[j]) && vInter1(vs[i], fs[i], vs[j], fs[j]) {
+				anyPair = true
+			}
+		}
+	}
+	vFrameBegin("CheckExtendedSpatialIdsArrayOverlap")
+	got, err := CheckExtendedSpatialIdsArrayOverlap(l1, l2)
+	vFrameEnd()
+	vAssert(err == nil, "valid lists are accepted")
+	vAssert(got == anyPair, "the array form equals the disjunction of the pairwise form (false when a list is empty)")
+	vReach("end")
+}
+
 // VerifC05Tree: spatial-ID (radix tree) pairwise check inside the documented +-2^24 m.
 // Cases z1, z2; symbolic indices.
 func VerifC05Tree() {
